@@ -47,8 +47,12 @@ InjExpect(P, inj) ==
       wiring    |-> IF v # "no" THEN Wiring(P, inj) ELSE [t \in {} |-> 0],
       scheds    |-> IF v # "no" THEN Scheds(P, inj) ELSE <<>>]
 
+\* top-level provider-set variables that are not well-formed by themselves (wire check must report them even when no injector uses them)
+InvalidSets(P) == {P.sets[j].pkg \o "." \o P.sets[j].name :
+                     j \in {x \in DOMAIN P.sets : ~(ItemsLeavesOK(P, P.sets[x].items) /\ LevelReasons(P, P.sets[x].items, <<>>) = {})}}
 Case(P) == [key |-> P.key, fam |-> P.fam, prog |-> P,
-            expect |-> [i \in DOMAIN P.injs |-> InjExpect(P, P.injs[i])]]
+            expect |-> [i \in DOMAIN P.injs |-> InjExpect(P, P.injs[i])],
+            invalidsets |-> InvalidSets(P)]
 
 (* ======================================================================== *)
 (* Family G: every digraph over n types.  Node kinds: "f" provider function *)
@@ -484,10 +488,18 @@ GSplitProg(n, E, part) ==
   IN Prog(key, "G", [i \in 1..n |-> Tok(TN(i))], leaves,
           <<SetD("SetA", "a", Items(inA)), SetD("SetB", "a", Items(inB)), SetD("SetAll", "a", <<ItS(1), ItS(2)>>)>>,
           <<Inj("Inject", <<>>, TN(1), FALSE, FALSE, <<ItS(3)>>)>>)
+\* the same sets, but no injector uses them: only `wire check` / `wire show` look at them
+GSplitUnused(n, E, part) ==
+  LET q == GSplitProg(n, E, part)
+      k == Len(q.leaves) + 1
+  IN [q EXCEPT !.key = "G/splitunused/n" \o ToString(n) \o "/e" \o ToString(EdgeCode(n, E)) \o "/" \o ConcatStr(part),
+               !.atoms = q.atoms \o <<Tok("T0")>>,
+               !.leaves = q.leaves \o <<Func("P0", <<>>, "T0", FALSE, FALSE)>>,
+               !.injs = <<Inj("Inject", <<>>, "T0", FALSE, FALSE, <<ItL(k)>>)>>]
 FamilyGSplit(p, n) ==
   \E E \in SUBSET ((1..n) \X (1..n)) : \E part \in [1..n -> {"A", "B"}] :
     /\ part[1] = "A" /\ \E i \in 1..n : part[i] = "B"
-    /\ p = GSplitProg(n, E, part)
+    /\ (p = GSplitProg(n, E, part) \/ p = GSplitUnused(n, E, part))
 LatticeProg(d, back) ==
   LET n == 2 * d
       layer(k) == (k + 1) \div 2
@@ -554,6 +566,10 @@ XProg(v) ==
          mk(<<StructL("St", "S9", IF v = "foreign-struct-star" THEN <<>> ELSE IF v = "foreign-struct-unexported-name" THEN <<"A", "c">> ELSE <<"A">>, v = "foreign-struct-star"),
               FuncIn("PU1", "b", <<>>, "U1", FALSE, FALSE)>> \o (IF v = "foreign-struct-exported-name" THEN <<>> ELSE <<FuncIn("PU2", "b", <<>>, "U2", FALSE, FALSE)>>), <<>>,
             <<XInj("Inject", <<>>, "S9", IF v = "foreign-struct-exported-name" THEN <<ItL(1), ItL(2)>> ELSE <<ItL(1), ItL(2), ItL(3)>>, 1)>>)
+    [] v = "variadic-err-provider" ->          \* a variadic provider that can fail, followed by another provider that can fail
+         [mk(<<[Func("PV", <<"T2", "[]T3">>, "T1", TRUE, TRUE) EXCEPT !.va = TRUE], Func("P2", <<>>, "T2", TRUE, FALSE),
+               Func("PS", <<>>, "[]T3", FALSE, FALSE), Func("P9", <<"T1">>, "T9", TRUE, TRUE)>>, <<>>,
+             <<[XInj("Inject", <<>>, "T9", <<ItL(1), ItL(2), ItL(3), ItL(4)>>, 1) EXCEPT !.cl = TRUE, !.er = TRUE]>>) EXCEPT !.fam = "R"]
     [] v = "same-set-twice-direct" ->          \* one set listed twice in the same call
          mk(<<XF("P2", <<>>, "T2"), XF("P1", <<"T2">>, "T1")>>, <<SetD("SetA", "a", <<ItL(1)>>)>>,
             <<XInj("Inject", <<>>, "T1", <<ItS(1), ItL(2), ItS(1)>>, 1)>>)
@@ -563,6 +579,6 @@ XProg(v) ==
 XVariants == {"star-foreign-tag-missing", "star-foreign-tag-ok", "two-files-first-missing", "two-files-second-missing", "two-files-ok",
               "missing-behind-bind", "missing-behind-bind-2", "bind-iface-not-implementing", "arg-returned-through-bind",
               "arg-returned-directly", "shared-import-bind-lacks-concrete", "multi-name-var-sets", "same-set-twice-direct", "same-set-twice-in-set",
-              "foreign-struct-star", "foreign-struct-unexported-name", "foreign-struct-exported-name"}
+              "foreign-struct-star", "foreign-struct-unexported-name", "foreign-struct-exported-name", "variadic-err-provider"}
 FamilyX(p, vs) == \E v \in vs : p = XProg(v)
 =============================================================================
